@@ -1434,9 +1434,10 @@ def _range_next(c, fwd, incl, counter=False):
         if old_alias is not None and old_alias[1] is not None and under(term_place(old_alias[1]), start_place):
             old_alias = None
         st.kill(start_place)
-        hi_new = None if hi_end is None else hi_end + 1
+        # new cursor <= max(old cursor, end) and <= old cursor + 1 (a range built with start > end never moves)
+        hi_new = None
         if si[1] is not None:
-            hi_new = si[1] + 1 if hi_new is None else min(hi_new, si[1] + 1)
+            hi_new = si[1] + 1 if hi_end is None else min(si[1] + 1, max(si[1], hi_end + 1))
         st.set_iv(S, si[0], hi_new)
         S_val = ("n", S, 0)
         none_facts = [(e_val, S_val, 0)] if not (incl or counter) else []
